@@ -97,6 +97,15 @@ def _norm_of(ev: Evaluator, t: T, fr=None) -> Optional[T]:
         if vm2 is not None and vm2[0].op == "name" and vm2[0].args[0].split(".")[-1] in ("diag", "diagonal") and \
                 len(vm2[2]) == 1:
             return vm2[2][0]
+        if inner.op == "call" and (array_fn(inner) or "") == "einsum":
+            # einsum("wii->wi", R): the diagonals of a stack of matrices
+            _, epos, _ek = call_parts(inner)
+            if len(epos) == 2 and epos[0].op == "const" and isinstance(epos[0].args[0], str):
+                sp = epos[0].args[0].replace(" ", "")
+                if "->" in sp:
+                    i_, o_ = sp.split("->")
+                    if len(i_) == 3 and len(o_) == 2 and i_[1] == i_[2] and i_[0] != i_[1] and o_ == i_[0] + i_[1]:
+                        return epos[1]
         dg = m_arrcall(inner, "diagonal") if inner.op == "call" else None
         if dg is not None:
             _, dpos, dk = call_parts(inner)
@@ -139,7 +148,46 @@ def pair3(ctx, fi: FuncInfo) -> int:
             else:
                 r_of = _norm_of(ev, nf, fr)
                 if r_of is None:
-                    why = f"norm factor{tag} is not vmap(prod(diag(R)))"
+                    own_r = getitem(fact, const(1))
+                    def mentions_trace(t_):
+                        for x in subterms(t_):
+                            if x.op == "name" and x.args[0].split(".")[-1] in ("trace", "sum", "mean", "nansum", "max", "min"):
+                                return True
+                            if x.op == "call" and x.args[0].op == "attr" and x.args[0].args[1] in ("trace", "sum", "mean", "max", "min"):
+                                return True
+                            vm_ = match_vmap(x) if x.op == "call" else None
+                            if vm_ is not None and vm_[0].op == "closure":
+                                try:
+                                    b_ = ev.open_closure(vm_[0], [sym("§r")])
+                                except AnalysisError:
+                                    b_ = None
+                                if b_ is not None and mentions_trace(b_):
+                                    return True
+                        return False
+                    def mentions_prod(t_):
+                        for x in subterms(t_):
+                            if x.op == "name" and x.args[0].split(".")[-1] in ("prod", "cumprod", "det", "slogdet"):
+                                return True
+                            vm_ = match_vmap(x) if x.op == "call" else None
+                            if vm_ is not None and vm_[0].op == "closure":
+                                try:
+                                    b_ = ev.open_closure(vm_[0], [sym("§r")])
+                                except AnalysisError:
+                                    b_ = None
+                                if b_ is not None and mentions_prod(b_):
+                                    return True
+                        return False
+                    if any(x is own_r for x in subterms(nf)) and mentions_trace(nf) and not mentions_prod(nf):
+                        why = f"norm factor{tag} reduces R's diagonal by a sum / trace / extremum; det R is the product of the diagonal"
+                    elif any(x is own_r for x in subterms(nf)):
+                        # computed from the R of this very factorisation, in a form that is not recognised as the
+                        # product of its diagonal: not judged
+                        ctx.rep.note(f"{fi.qualname}: the norm factor{tag} is computed from R of the returned factorisation "
+                                     f"by {show(nf, maxdepth=3)[:70]}, a form the rule does not model; not judged")
+                        n += 1
+                        continue
+                    else:
+                        why = f"norm factor{tag} is not built from the R of the factorisation whose Q is returned"
                 elif not (r_of.op == "getitem" and is_const(r_of.args[1], 1) and r_of.args[0] is fact):
                     why = (f"norm factor{tag} is built from R of a different factorisation than the one "
                            f"whose Q is returned")
